@@ -136,7 +136,7 @@ open Factory in
 theorem newest_sheds_incoming_once (w : W) (j : Job) (L : Nat) (hd : w.disc = some (L, .newest))
     (hdisc : discardable w.cfg j = true) (hfull : L ≤ w.queue.length) :
     (w.maybeEnqueue j).queue = w.queue ∧
-    (w.maybeEnqueue j).env.log = w.env.log ++ [loadshedEv w.env.hasHandler j] ++ (if j.port then [Ev.reply j.id true] else []) :=
+    (w.maybeEnqueue j).env.log = w.env.log ++ [loadshedEv w.handler j] ++ (if j.port then [Ev.reply j.id true] else []) :=
   maybeEnqueue_newest_shed w j L hd hdisc hfull
 
 open Factory in
@@ -146,7 +146,7 @@ report per shed job. -/
 theorem oldest_sheds_each_once (w : W) (j : Job) (L : Nat) (hd : w.disc = some (L, .oldest)) :
     ∃ shed : List Job,
       (w.queue ++ [{ j with port := false }]).Perm (shed ++ (w.maybeEnqueue j).queue) ∧
-      (w.maybeEnqueue j).env.log = (w.env.accept j).log ++ shed.map (loadshedEv w.env.hasHandler) :=
+      (w.maybeEnqueue j).env.log = (w.env.accept j).log ++ shed.map (loadshedEv w.handler) :=
   maybeEnqueue_oldest_shed w j L hd
 
 
@@ -189,7 +189,7 @@ theorem rate_limited_dispatch (w : W) (j : Job) (c : LeakyBucket.Cfg) (lb : Leak
     (hne : j.expired w.env.now = false) (hd : w.drain = .notDraining) (hrl : w.rl = some (c, lb))
     (hno : (LeakyBucket.check c lb w.env.now).2 = false) :
     (w.dispatch j).env.log = w.env.log ++
-        (Ev.discard .rateLimited j.id w.env.hasHandler :: (if j.port then [Ev.reply j.id true] else [])) ∧
+        (Ev.discard .rateLimited j.id w.handler :: (if j.port then [Ev.reply j.id true] else [])) ∧
     (w.dispatch j).queue = w.queue ∧ (w.dispatch j).pool = w.pool ∧
     (w.dispatch j).rl = some (c, (LeakyBucket.check c lb w.env.now).1) := by
   unfold W.dispatch W.routeMessage W.routeLimited
@@ -242,7 +242,7 @@ port — and reaches neither a worker nor a queue. -/
 theorem drain_refuses_dispatch (w : W) (j : Job) (hne : j.expired w.env.now = false)
     (hd : w.drain ≠ .notDraining) :
     (w.dispatch j).env.log = w.env.log ++
-        (Ev.discard .shutdown j.id w.env.hasHandler :: (if j.port then [Ev.reply j.id true] else [])) ∧
+        (Ev.discard .shutdown j.id w.handler :: (if j.port then [Ev.reply j.id true] else [])) ∧
     (w.dispatch j).queue = w.queue ∧ (w.dispatch j).pool = w.pool := by
   unfold W.dispatch
   have : (w.drain == Drain.notDraining) = false := by
@@ -351,6 +351,30 @@ open Factory in
 example : ((init f5Case).runSteps f5Steps).live = [0] := by decide +kernel
 open Factory in
 example : C15.capacityOk f5Info ((init f5Case).runSteps f5Steps).env.log = true := by decide +kernel
+
+/-! ### Witness: the limit is lowered below the backlog
+
+The history that exposes a shedding loop that runs only once (`while` → `if`): limit 1 with one
+job queued, `UpdateSettings` lowers the limit to 0, the next job makes the queue two over the
+limit — both are shed, the queue ends at 0 (`limit_oldest` for a prior content above the limit). -/
+open Factory in
+def lowerCase : CaseCfg :=
+  { cfg := { router := .q, prioQueue := true, hasHandler := true, table := [], hasCC := false }, n := 2, disc := some (1, .oldest), rl := none }
+open Factory in
+def lowerSteps : List Step :=
+  [⟨.nop, 0, 2000000, 3000000⟩,
+   ⟨.dispatch 8 0 13646096770106105413 none false, 3000000, 4000000, 5000000⟩,
+   ⟨.dispatch 9 5 15794382300316794652 none false, 5000000, 6000000, 7000000⟩,
+   ⟨.dispatch 10 5 15794382300316794652 none false, 7000000, 8000000, 9000000⟩,
+   ⟨.settings (some (some (0, .oldest))) none, 9000000, 10000000, 11000000⟩,
+   ⟨.dispatch 11 7 7364705619221056123 none false, 11000000, 12000000, 13000000⟩]
+open Factory in
+example : (((init lowerCase).runSteps (lowerSteps.take 5)).queue.map (·.id)) = [10] := by decide +kernel
+open Factory in
+example : ((init lowerCase).runSteps lowerSteps).queue = [] := by decide +kernel
+open Factory in
+example : (((init lowerCase).runSteps lowerSteps).env.log.filterMap fun | .discard r id h => some (r, id, h) | _ => none)
+    = [(.loadshed, 10, some 0), (.loadshed, 11, some 0)] := by decide +kernel
 
 /-! ### Non-vacuity -/
 
